@@ -28,7 +28,7 @@ Proof. exact immutable_param_init_raises. Qed.
 Print Assumptions C02_missing_param_raises.
 Theorem C02_wrong_shape_raises : forall ev call p input fr s x nm n c v,
   name_reserved (f_resv fr) nm (Some (e_params ev)) = false -> has_var (s_vars s) (e_params ev) p nm = true ->
-  get_var (s_vars s) (e_params ev) p nm = Some (SVec v) -> length v <> n ->
+  get_var (s_vars s) (e_params ev) p nm = Some (SVec v) -> length v <> psize n input ->
   step ev call p input fr s (SParam x nm n c) = Err EParamShape.
 Proof. exact wrong_shape_param_raises. Qed.
 Print Assumptions C02_wrong_shape_raises.
